@@ -201,7 +201,18 @@ func cmdCheck(args []string) {
 	if *tier == "thorough" {
 		tmo = 30000
 	}
-	results := verifyFuncs(P, fns, solveOpts{dir: scratch, timeoutMs: tmo, thorough: *tier == "thorough", seed: seed, keepFiles: true}, 16)
+	wantRetry := func(name string) bool {
+		if claims.claimed(name) {
+			return true
+		}
+		for _, k := range known {
+			if k.Property == *prop && globToRe(k.Obligation).MatchString(name) {
+				return true
+			}
+		}
+		return false
+	}
+	results := verifyFuncs(P, fns, solveOpts{dir: scratch, timeoutMs: tmo, thorough: *tier == "thorough", seed: seed, keepFiles: true, wantRetry: wantRetry}, 16)
 
 	var obs []obEvidence
 	var undecidedNotes []string
@@ -300,6 +311,20 @@ func cmdCheck(args []string) {
 			// an open known finding may own the only obligation of a pattern
 			undecidedNotes = append(undecidedNotes, fmt.Sprintf("claim %q matched %d obligation(s), expected at least %d", src, matchedClaims[src], claims.minimum[src]))
 			fmt.Printf("UNDECIDED property=%s claim %q matched %d obligation(s), expected >= %d (contract stale or function gone)\n", *prop, src, matchedClaims[src], claims.minimum[src])
+		}
+	}
+	verified := map[string]bool{}
+	for _, fn := range fns {
+		verified[fn.String()] = true
+	}
+	for _, r := range results {
+		if r.g == nil {
+			continue
+		}
+		for u := range r.g.usedContracts {
+			if strings.HasPrefix(u, "func ") && !verified[strings.TrimPrefix(u, "func ")] {
+				assumptions["callee contract relied upon but not proved in this check (proved by another property's check or trusted): "+shortName(strings.TrimPrefix(u, "func "))] = true
+			}
 		}
 	}
 	var asm []string
